@@ -69,6 +69,14 @@ impl Ctx {
     }
 
     fn cond(&self, e: &Expr) -> String {
+        if let Expr::Paren(p) = e {
+            return self.cond(&p.expr);
+        }
+        if let Expr::Unary(u) = e {
+            if matches!(u.op, syn::UnOp::Not(_)) {
+                return format!("(.not {})", self.cond(&u.expr));
+            }
+        }
         if let Expr::Binary(b) = e {
             let op = match b.op {
                 syn::BinOp::Gt(_) => Some("gt"),
@@ -180,12 +188,6 @@ fn seq(ctx: &mut Ctx, stmts: &[Stmt], mut a: Alloc) -> String {
                 let Some(init) = &l.init else { return format!("(.unknown {})", lean::s(&squash(&toks(s)))) };
                 let it = squash(&toks(&*init.expr));
                 match name.as_str() {
-                    "next_capacity" | "remaining_memory" => {
-                        let v = if name == "next_capacity" { ".nextCap" } else { ".remaining" };
-                        let e = ctx.expr(&init.expr);
-                        let rest = seq(ctx, &stmts[i + 1..], a);
-                        return format!("(.bind {v} {e} {rest})");
-                    }
                     // loads of the two counters into locals (lock-free arena): aliases of the inputs
                     "memory_usage" if it == "self.current_memory_usage()" => continue,
                     "max_memory_usage" if it == "self.get_max_memory_usage()" => continue,
@@ -209,11 +211,16 @@ fn seq(ctx: &mut Ctx, stmts: &[Stmt], mut a: Alloc) -> String {
                     }
                     "allocated_string" | "allocated" if it == "unsafe{bucket.push_slice(slice)}" => {}
                     _ => {
-                        // a NonZeroUsize local
+                        // a NonZeroUsize local, or a pure arithmetic local (whatever its name): the latter is
+                        // substituted at its uses — the inputs do not change between binding and use
                         if let Some(sz) = size_of(ctx, &a, &init.expr) {
                             a.nz.insert(name, sz);
                         } else {
-                            return format!("(.unknown {})", lean::s(&squash(&toks(s))));
+                            let e = ctx.expr(&init.expr);
+                            if e.contains(".unknown") || l.init.as_ref().map(|i| i.diverge.is_some()).unwrap_or(false) {
+                                return format!("(.unknown {})", lean::s(&squash(&toks(s))));
+                            }
+                            ctx.alias.insert(name, e);
                         }
                     }
                 }
@@ -327,11 +334,12 @@ fn grow_tree(path: &Path, ty: &str) -> String {
     let file = parse_file(path);
     let Some(body) = find_fn(&file, ty, "store_str") else { return "(.unknown \"store_str not found\")".into() };
     // the growth part starts at `let next_capacity = …`
+    // the growth part starts at the first local computed from the block capacity
     let start = body.stmts.iter().position(|s| match s {
-        Stmt::Local(l) => matches!(&l.pat, syn::Pat::Ident(p) if p.ident == "next_capacity"),
+        Stmt::Local(l) => l.init.as_ref().map(|i| squash(&toks(&*i.expr)).contains("bucket_capacity")).unwrap_or(false),
         _ => false,
     });
-    let Some(start) = start else { return "(.unknown \"no `let next_capacity` in store_str\")".into() };
+    let Some(start) = start else { return "(.unknown \"no local computed from the block capacity in store_str\")".into() };
     // what precedes it is the search for a block with room (modelled separately); make sure nothing
     // there touches the budget or the capacity
     for s in &body.stmts[..start] {
@@ -341,6 +349,24 @@ fn grow_tree(path: &Path, ty: &str) -> String {
         }
     }
     let mut ctx = Ctx { alias: HashMap::new() };
+    // locals bound before the growth part that only rename the string or its length
+    let mut stringish: Vec<String> = vec!["string".into()];
+    for s in &body.stmts[..start] {
+        if let Stmt::Local(l) = s {
+            if let (syn::Pat::Ident(p), Some(init)) = (&l.pat, &l.init) {
+                let it = squash(&toks(&*init.expr));
+                let name = p.ident.to_string();
+                if stringish.iter().any(|x| it == format!("{x}.as_bytes()")) {
+                    stringish.push(name);
+                } else if stringish.iter().any(|x| it == format!("{x}.len()")) {
+                    ctx.alias.insert(name, "(.var .len)".into());
+                }
+            }
+        }
+    }
+    for x in &stringish {
+        ctx.alias.insert(format!("{x}.len()"), "(.var .len)".into());
+    }
     seq(&mut ctx, &body.stmts[start..], Alloc::default())
 }
 
